@@ -115,7 +115,8 @@ class Tagged(io.TextIOBase):
             if c is not None:
                 c.depth += 1
                 try:
-                    c.ctl.out(self.tag, s)
+                    # the sandbox location is an accident of the harness: never part of a history
+                    c.ctl.out(self.tag, s.replace(c.root, "").replace(c.root[:-1], "."))
                 finally:
                     c.depth -= 1
         return len(s)
@@ -132,7 +133,11 @@ def excinfo(e):
         fn = fr.filename.replace(os.sep, "/")
         if "/vsg/" in fn:
             frames.append("vsg/" + fn.split("/vsg/", 1)[1] + ":" + fr.name)
-    return {"type": type(e).__name__, "msg": str(e)[:300], "frames": frames[-6:]}
+    msg = str(e)
+    c = seams.CTX
+    if c is not None:
+        msg = msg.replace(c.root, "").replace(c.root[:-1], ".")
+    return {"type": type(e).__name__, "msg": msg[:300], "frames": frames[-6:]}
 
 
 class FakeClock:
